@@ -120,6 +120,22 @@ func (w *gwWorld) putSetting(cl *s3c.Client, bucket, s, doc string) *s3c.Resp {
 		if doc == "A2" {
 			h = []s3c.KV{{K: "X-Amz-Grant-Read", V: bucketUsers["u2"].Access}}
 		}
+		if doc == "A3" {
+			// an AccessControlPolicy body: the owner, and ONE grantee in two grants (READ, WRITE)
+			owner := cl.Creds.Access
+			if g := cl.Do(s3c.Req{Method: "GET", Path: "/" + bucket, Query: q}); g.OK() {
+				var d aclDoc
+				if xml.Unmarshal(g.Body, &d) == nil && d.Owner.ID != "" {
+					owner = d.Owner.ID
+				}
+			}
+			grant := func(id, perm string) string {
+				return `<Grant><Grantee xmlns:xsi="http://www.w3.org/2001/XMLSchema-instance" xsi:type="CanonicalUser"><ID>` + id + `</ID></Grantee><Permission>` + perm + `</Permission></Grant>`
+			}
+			body := `<AccessControlPolicy xmlns="http://s3.amazonaws.com/doc/2006-03-01/"><Owner><ID>` + owner + `</ID></Owner><AccessControlList>` +
+				grant(owner, "FULL_CONTROL") + grant(bucketUsers["u2"].Access, "READ") + grant(bucketUsers["u2"].Access, "WRITE") + `</AccessControlList></AccessControlPolicy>`
+			return cl.Do(s3c.Req{Method: "PUT", Path: "/" + bucket, Query: q, Body: []byte(body)})
+		}
 		return cl.Do(s3c.Req{Method: "PUT", Path: "/" + bucket, Query: q, Headers: h})
 	case "own":
 		body := `<OwnershipControls xmlns="http://s3.amazonaws.com/doc/2006-03-01/"><Rule><ObjectOwnership>` + ownDocs[doc] + `</ObjectOwnership></Rule></OwnershipControls>`
@@ -196,8 +212,10 @@ func (w *gwWorld) getSetting(cl *s3c.Client, bucket, s string) bucketSettingObs 
 		own := d.Owner.ID + "|FULL_CONTROL"
 		a1 := []string{own, "all-users|READ"}
 		a2 := []string{own, bucketUsers["u2"].Access + "|READ"}
+		a3 := []string{own, bucketUsers["u2"].Access + "|READ", bucketUsers["u2"].Access + "|WRITE"}
 		sort.Strings(a1)
 		sort.Strings(a2)
+		sort.Strings(a3)
 		switch strings.Join(gs, ",") {
 		case own:
 			o.Doc = "A0"
@@ -205,6 +223,8 @@ func (w *gwWorld) getSetting(cl *s3c.Client, bucket, s string) bucketSettingObs 
 			o.Doc = "A1"
 		case strings.Join(a2, ","):
 			o.Doc = "A2"
+		case strings.Join(a3, ","):
+			o.Doc = "A3"
 		default:
 			o.Doc = "?other-acl"
 		}
